@@ -19,14 +19,14 @@ theorem keeps_simpleCustomize (F : Facts15) (src : Nat) (kw : Kw) : Keeps Tr (si
     | false => rfl
   refine Keeps.bind (Keeps.getHeap _) (fun h => ?_)
   refine Keeps.bind (Keeps.guardNone _ _) (fun _ => ?_)
-  refine Keeps.bind (Keeps.allocAttrs _ _) (fun a => ?_)
+  refine Keeps.bind (keeps_allocDerived _ _ _).anyPre (fun a => ?_)
   refine Keeps.bind (Keeps.getHeap _) (fun h1 => ?_)
   refine (Keeps.allocCls_simple _ ?_).weaken (fun _ p => ?_) (fun _ _ q => q)
   · unfold simpleNewCls; split <;> exact hk
   · have : (simpleNewCls F h1 sc src a kw).attrs = a := by unfold simpleNewCls; split <;> rfl
     rw [this]; exact p.1
 
-theorem keeps_xmlCustomize (src : Nat) (kw : Kw) : Keeps Tr (xmlCustomize src kw) TrQ := by
+theorem keeps_xmlCustomize (F : Facts15) (src : Nat) (kw : Kw) : Keeps Tr (xmlCustomize F src kw) TrQ := by
   unfold xmlCustomize
   refine Keeps.bind (Keeps.getCls Tr _) (fun sc => ?_)
   refine Keeps.guardThen _ _ _ _ (fun he => ?_)
@@ -34,8 +34,7 @@ theorem keeps_xmlCustomize (src : Nat) (kw : Kw) : Keeps Tr (xmlCustomize src kw
     cases hc : sc.kind.isComplex with
     | true => simp [hc] at he
     | false => rfl
-  refine Keeps.bind (Keeps.getHeap _) (fun h => ?_)
-  refine Keeps.bind (Keeps.allocAttrs _ _) (fun a => ?_)
+  refine Keeps.bind (keeps_allocDerived _ _ _).anyPre (fun a => ?_)
   refine (Keeps.allocCls_simple _ ?_).weaken (fun _ p => p) (fun _ _ q => q)
   exact hk
 
@@ -74,7 +73,7 @@ theorem keepsCust (F : Facts15) (fuel : Nat) : KeepsCust F fuel := by
         | false => simp [hc] at he
       refine Keeps.bind (Keeps.getHeap _) (fun h0 => ?_)
       refine Keeps.bind (Keeps.liftExcept _ _) (fun ext => ?_)
-      refine Keeps.bind ((keeps_newVariant sc src ext kw h0 hk).weaken (fun _ p => p.1.1.2) (fun _ _ q => q)) (fun an => ?_)
+      refine Keeps.bind ((keeps_newVariant F sc src ext kw hk).weaken (fun _ p => p.1.1.2) (fun _ _ q => q)) (fun an => ?_)
       refine Keeps.bind (ih.processCaa _ _ _ _ _).anyPre (fun _ => ?_)
       refine Keeps.bind (ih.processCa _ _ _).anyPre (fun _ => ?_)
       exact Keeps.pureT _ _
@@ -106,7 +105,7 @@ theorem keepsCust (F : Facts15) (fuel : Nat) : KeepsCust F fuel := by
       · exact (ih.custComplex _ _ _ _).anyPre
       · exact (ih.custComplex _ _ _ _).anyPre
       · exact (ih.custComplex _ _ _ _).anyPre
-      · exact (keeps_xmlCustomize _ _).anyPre
+      · exact (keeps_xmlCustomize _ _ _).anyPre
       · exact (keeps_simpleCustomize _ _ _).anyPre
     · intro c k kw
       simp only [custField]
